@@ -23,7 +23,8 @@ RULE = ("scenario = <=2 root runs (event trigger or service call, launched at gr
         "it and one run in which a controller task calls task.cancel(target) while the target is suspended there (time "
         "taken from a dry run).  Every (scenario, fault) runs under legacy_decorators True and False.  Directed "
         "scenarios cover the DESIGN section-6 shapes (#19 first callback raises, #24 callback on a service task, cancel "
-        "inside a callback, callback that resizes the dict, cancel before the first segment).  Distinct by payload.")
+        "inside a callback, callback that resizes the dict - all four fixed in /repo and now expected to behave, cancel "
+        "before the first segment).  Distinct by payload.")
 ASSUMPTIONS = [
     "asyncio is cooperative: code between two awaits is atomic; Task.cancel() is delivered at the task's next resumption",
     "asyncio.Queue is FIFO (reaper queue); asyncio.wait returns when its tasks are done",
